@@ -654,6 +654,7 @@ theorem benignP_startTop (s : St) (t : Nat) (op : TopOp) : BenignP s (startTop s
   case gc => exact benignP_push he _ (inert_one rfl)
   case poll => exact benignP_push he _ (inert_one rfl)
   case frameEnd => exact benignP_push he _ (inert2 rfl rfl)
+  case clearTrackers => refine BenignS.toP (he.trans (Same.benignS ?_)); unfold clearTrackers; same_rfl
   case wSysEvent sys ty pid =>
     refine BenignP.trans_S (he.trans ((same_emit _ (.send pid)).benignS.trans ((benignS_fresh _).trans (Same.benignS ?_)))) (benignP_applyCmd _ _)
     same_rfl
